@@ -78,6 +78,8 @@ def hashseed_runs(tier, seed):
     repo = os.environ.get('T4GC_REPO', '/repo')
     n = 6 if tier == 'quick' else 40
     decks = [(fam, seed * 100003 + i) for i in range(n) for fam in ('level0', 'fill', 'lattice', 'hexlattice')]
+    from harness.decks import N_DIRECTED
+    decks += [('directed', i) for i in range(N_DIRECTED)]
     seeds = ['0', '1', '2', '12345'] if tier == 'quick' else ['0', '1', '2', '3', '4', '12345', '999', 'random']
     results = {}
     procs = []
